@@ -75,6 +75,21 @@ struct Maps {
     9: optional map<string, map<string, i32>> omm
 }
 
+struct TypedefContainers {
+    1: optional Labels ol
+    2: optional Codes oc
+    3: optional Counters ocn
+    4: required Vertex rv
+    5: optional set<double> od
+    6: optional set<i64> o64
+    7: optional set<bool> ob
+    8: optional map<double, string> mds
+    9: optional map<i32, set<string>> mis
+    10: optional map<string, list<double>> msl
+    11: optional set<Ratio> sr
+    12: optional list<Counters> lc
+}
+
 union Choice {
     1: string text
     2: i64 number
